@@ -631,6 +631,17 @@ async def interpret(ops, acc, probe):
         except BaseException as e:  # noqa - the verdict is taken outside
             if isinstance(e, (KeyboardInterrupt, SystemExit, GeneratorExit)) or type(e).__name__ == 'CaseTimeout':
                 raise
+            # what the error SAYS at the moment it is raised (an HTTPError's description / dict may be derived from other
+            # attributes, e.g. its cause): kept next to the instance so that later raises can be compared with it
+            try:
+                e._vf_said = (getattr(e, 'title', None), getattr(e, 'description', None),
+                              json.dumps(e.to_dict(), sort_keys=True, default=str) if hasattr(e, 'to_dict') else None)
+                said = getattr(e, '_vf_said_log', None)
+                if said is None:
+                    said = e._vf_said_log = []
+                said.append(e._vf_said)
+            except Exception:  # noqa - exotic exception objects: nothing to compare
+                pass
             out.append((op, dflt, 'exc', e, probe()))
     return out
 
@@ -804,6 +815,10 @@ def run_history(case):
                 raise Violation('error_not_cached', '%s: %s raised a different exception instance (%r) than '
                                 'the earlier call (%r)' % (ctx, call, val, first_exc))
             first_exc = val
+            log = getattr(val, '_vf_said_log', None) or []
+            if any(x != log[0] for x in log[1:]):
+                raise Violation('cached_error_changed', '%s: the error re-raised by %s no longer says what it said when it was first '
+                                'raised: (title, description, to_dict()) went %r -> %r' % (ctx, call, log[0], [x for x in log if x != log[0]][0]))
 
     # ---- parse-once and stream invariants
     p0 = outcomes[0][4]
